@@ -125,6 +125,8 @@ class Repo:
                 out = inline_module_constants(out, mc[rel])
                 from .normalise import unroll_literal_loops, simple_members, inline_simple_members
                 out = unroll_literal_loops(out)
+                from .normalise import undestructure_class_patterns
+                out = undestructure_class_patterns(out)
                 if '.' not in qual:
                     from .normalise import inline_statement_calls
                     out = inline_statement_calls(out, self._new_functions(rel, ''), False, self.module(rel))
